@@ -4,7 +4,8 @@ stdin : {"cases": [case, ...], "timeout": seconds per case}
   case = {"dim": d, "pts": [[int,...],...], "mls": int, "strategy": "balanced|fast|random", "seed": int,
           "dtype": "float|int", "knn": [[Q, k], ...], "rad": [[Q, m], ...],
           "ambient": [[[x, priority], ...], ...]   (optional: other PriorityQueue objects alive during the run),
-          "container": "list|tuple|float|int|fortran|view"  (form in which the points are handed to the constructor),
+          "container": "list|tuple|float|int|fortran|view|uint8|uint16|int8|int32|float32|bool"  (form / dtype in which the
+                     points are handed to the constructor; "qform": "typed" passes the query point in that dtype too),
           "mutate": "reverse|shift|row"  (optional, ndarray containers: after construction the caller overwrites its array
                      and builds a second tree from it; the queries then go to the FIRST tree),
           "scale_exp": s   (all coordinates, query points and radii are multiplied by 2^s; observations are divided again),
@@ -102,6 +103,11 @@ def run_case(case, timeout):
     # coordinates are the case's integers times 2^scale_exp (exact in binary64): magnitudes 1e-300 .. 1e300
     sc = 2.0 ** case.get("scale_exp", 0)
     SCALE[0] = sc
+    TYPED = {"uint8": np.uint8, "uint16": np.uint16, "int8": np.int8, "int32": np.int32, "float32": np.float32, "bool": np.bool_}
+    if cont in TYPED:
+        # small dtypes: only when every coordinate is representable (the generator arranges that), never scaled
+        if sc != 1.0 or n == 0 or not np.array_equal(np.array(case["pts"]).astype(TYPED[cont]).astype(float), np.array(case["pts"], dtype=float)):
+            cont = "float"
     if sc != 1.0 and cont == "int":
         cont = "float"
     base = np.array(case["pts"], dtype=float).reshape(n, d) * sc
@@ -122,6 +128,8 @@ def run_case(case, timeout):
         P = tuple(tuple(float(c) * sc for c in p) for p in case["pts"])
     elif cont == "int":
         P = np.array(case["pts"], dtype=int).reshape(n, d)
+    elif cont in TYPED:
+        P = np.array(case["pts"]).reshape(n, d).astype(TYPED[cont])
     elif cont == "fortran":
         P = np.asfortranarray(base)
     elif cont == "view":          # non-contiguous view into a larger buffer
@@ -172,6 +180,8 @@ def run_case(case, timeout):
     out["input_modified_by_build"] = bool(is_arr and not np.array_equal(P, before))
     # the caller goes on using its array: refill it and build another tree from it, then query the FIRST tree
     mut = case.get("mutate") if is_arr and n > 0 else None
+    if mut and cont in TYPED:
+        mut = "reverse"
     if mut:
         if mut == "reverse":
             P[:] = P[::-1].copy()
@@ -216,6 +226,12 @@ def run_case(case, timeout):
             return tuple(float(x) for x in a)
         if kind == "intarray" and sc == 1.0 and all(x % 2 == 0 for x in Q):
             return np.array([x // 2 for x in Q], dtype=int)
+        if kind == "typed" and cont in TYPED and sc == 1.0 and all(x % 2 == 0 for x in Q):
+            # the query position in the same small dtype as the points, when it is representable there
+            v = np.array([x // 2 for x in Q])
+            t = v.astype(TYPED[cont])
+            if np.array_equal(t.astype(float), v.astype(float)):
+                return t
         return a
 
     if case.get("bad_call_first"):
